@@ -115,8 +115,10 @@ func bytesOfTok(v uint64) []byte {
 
 func opName(n uint64) string { return fmt.Sprintf("op-%d", n) }
 func srName(n uint64) string { return fmt.Sprintf("sr-%d", n) }
-func dkvURI(op, pl uint64) string {
-	return fmt.Sprintf("dkv/op-%d/ckpt-%d", op, pl)
+// the operator's DKV checkpoints file: the in-memory location answers a read of it with a document that
+// holds the checkpoint id named in the path (what the operator would have saved before acknowledging)
+func dkvURI(op, pl, cid uint64) string {
+	return fmt.Sprintf("dkv/op-%d/ckpt-%d-c%d", op, pl, cid)
 }
 
 func snapOfProto(c *snapshotpb.JobCheckpoint) (*snapObs, error) {
@@ -174,8 +176,12 @@ func (m *memLoc) Read(path string) ([]byte, error) {
 		return d, nil
 	}
 	if strings.HasPrefix(path, "dkv/") || strings.Contains(path, "/dkv/") {
-		// a DKV checkpoints document that references no further files
-		return []byte(`{"checkpoints":[{}]}`), nil
+		// a DKV checkpoints document of the checkpoint id named in the path, referencing no further files
+		var op, pl, cid uint64
+		if i := strings.Index(path, "dkv/op-"); i >= 0 {
+			fmt.Sscanf(path[i:], "dkv/op-%d/ckpt-%d-c%d", &op, &pl, &cid)
+		}
+		return []byte(fmt.Sprintf(`{"checkpoints":[{"id":%d}]}`, cid)), nil
 	}
 	return nil, locations.ErrNotFound
 }
